@@ -113,10 +113,16 @@ def run(ctx, eng):
         has_open = any(s.endswith('.open') and ('each(' in s or 'lv(' in s
                                                 or '<' in s)
                        for s in shows)
-        has_par = any('% 2) == remainder)' in s for s in shows)
+        has_par = any('% 2)' in s and 'remainder' in s and '==' in s
+                      and not s.startswith('not ') for s in shows)
         v = p.value
+        aff = T.to_aff(v) if v is not None else None
+        loop_counter = aff is not None and aff[1] == 1 and \
+            len(aff[0]) == 1 and all(
+                c == 1 and cm.show0(a).startswith('phi(')
+                for a, c in aff[0].items())
         counted = v is not None and (
-            cm.aff_is(v, {'phi(count)': 1}, 1) or          # count += 1
+            loop_counter or                                 # count += 1
             (v[0] == 'call' and v[1] == 'sum' and
              [c[1] for c in cm.comp_terms(v)] == [T.C(1)]))  # sum(1 for ..)
         if has_open and has_par and counted:
